@@ -19,6 +19,8 @@ type CaseC07 struct {
 	Map       map[string]interface{} `json:"map"`
 	Steps     []Step                 `json:"steps"`
 	ArraySize int                    `json:"array_size"`
+	Unrelated uint16                 `json:"unrelated_opts,omitempty"` // options that must not matter, see applyUnrelatedOptions
+	Alias *AliasSpec `json:"alias,omitempty"` // one container object gets a second parent in the subject Map
 }
 
 func init() { register("C07", checkC07) }
@@ -45,6 +47,10 @@ func genC07(t *rapid.T) CaseC07 {
 	}
 	if rapid.IntRange(0, 7).Draw(t, "setsize") == 0 {
 		c.ArraySize = rapid.SampledFrom([]int{1, 31, 33, 40, 64, 100}).Draw(t, "asize")
+	}
+	c.Unrelated = genUnrelated(t)
+	if rapid.IntRange(0, 7).Draw(t, "alias") == 0 {
+		c.Alias = &AliasSpec{Src: rapid.IntRange(0, 30).Draw(t, "asrc"), Dst: rapid.IntRange(0, 30).Draw(t, "adst"), Key: rapid.SampledFrom(shapeKeys).Draw(t, "akey")}
 	}
 	return c
 }
@@ -103,12 +109,23 @@ func checkC07(c CaseC07, info *Info) *Failure {
 			return nil
 		}
 	}
+	defer resetOptions()
+	applyUnrelatedOptions(c.Unrelated)
+	info.ClassIf(c.Unrelated != 0, "unrelated options switched on")
 	if c.ArraySize > 0 {
 		mxj.SetArraySize(c.ArraySize)
-		defer mxj.SetArraySize(0)
 	}
 	path := pathString(c.Steps)
 	subject := copyMap(c.Map)
+	if c.Alias != nil {
+		byValue := copyMap(c.Map)
+		if applyAlias(subject, *c.Alias, true) && applyAlias(byValue, *c.Alias, false) && !(idx > 0 && hasListInList(byValue)) {
+			c.Map = byValue
+			info.Class("shared sub-structure in the subject")
+		} else {
+			subject = copyMap(c.Map)
+		}
+	}
 	want := refEval(copyMap(c.Map), c.Steps)
 	wild := hasWildcard(c.Steps)
 
@@ -118,6 +135,12 @@ func checkC07(c CaseC07, info *Info) *Failure {
 	}
 	if !compareVals(got, want, wild) {
 		return failf("values-mismatch", "map %s path %q\n got  %s\n want %s", canon(c.Map), path, canon(got), canon(want))
+	}
+	// the same question asked again gets the same answer (and the first answer is still intact)
+	first := append([]interface{}(nil), got...)
+	again, aerr := mxj.Map(subject).ValuesForPath(path)
+	if aerr != nil || !compareVals(again, want, wild) || !compareVals(got, first, false) {
+		return failf("values-mismatch", "map %s path %q: second call returned %s (%v), first result now %s, want %s", canon(c.Map), path, canon(again), aerr, canon(got), canon(want))
 	}
 	// ValueForPath / ValueForPathString / Exists
 	v, verr := mxj.Map(subject).ValueForPath(path)
